@@ -235,6 +235,23 @@ def replay(ob):
                 fails.append({"sg": sg, "occupied": extra, "observed": "%s: %s" % (type(e).__name__, str(e)[:200])})
             if len(fails) >= 3:
                 return {"reproduced": True, "failing_inputs": fails}
+    # a chiral crystal described in a left-handed basis (a and b exchanged together with the coordinates) is still the same crystal
+    try:
+        for sg in (76, 144, 19):
+            at = tr.pinned_probe(sg, npin=2)
+            cell = np.array(at.get_cell())[[1, 0, 2]]
+            sp = at.get_scaled_positions()[:, [1, 0, 2]]
+            from ase import Atoms as _At
+            lh = _At(numbers=at.get_atomic_numbers(), scaled_positions=sp, cell=cell, pbc=True)
+            if np.abs(lh.get_positions() - at.get_positions()).max() > 1e-9:
+                continue
+            n_ref = int(tr.analyze(at).get_space_group_number())
+            n_lh = int(tr.analyze(lh).get_space_group_number())
+            if n_ref != n_lh:
+                fails.append({"sg": sg, "presentation": "the same atoms with cell vectors a and b exchanged (left-handed basis)", "observed": "space group %d, in the right-handed basis %d" % (n_lh, n_ref)})
+                return {"reproduced": True, "failing_inputs": fails}
+    except Exception as e:  # noqa
+        fails.append({"presentation": "left-handed basis", "observed": "%s: %s" % (type(e).__name__, str(e)[:200])})
     # one analyzer used for two crystals in turn: the conventional system must be the second crystal's
     try:
         a = tr.analyze(tr.pinned_probe(152, npin=1))
